@@ -96,6 +96,21 @@ def walk (p : Bytes) : Nat → List Tree → List (Bytes × Bytes)
 /-- `AscendPrefix(prefix)` fully consumed (one pop per node at most) -/
 def ascendPrefix (t : Tree) (p : Bytes) : List (Bytes × Bytes) := walk p (size t + 1) (seek p t [])
 
+/-- in-place update through a retained reference: `n, ok := Get(k); n.Value = v; Put(n)` puts the very node the tree
+already holds (the links copied onto it are its own); the returned "replaced" node is that same node, so its value
+reads `v`. Nothing happens when the key is absent. -/
+def reput (k v : Bytes) (t : Tree) : Option Bytes × Tree :=
+  match get k t with
+  | some _ => (some v, replace k v t)
+  | none => (none, t)
+
+/-- `for n := range AscendPrefix(p) { Put(NewKVEntry(n.Key, v)) }`: a replacement leaves the replaced node's links
+in place, so the running iterator (which holds the replaced nodes) still walks the pre-state; what it yields is the
+scan of the pre-state, and every yielded key is replaced. -/
+def ascendPut (p v : Bytes) (t : Tree) : List (Bytes × Bytes) × Tree :=
+  let es := ascendPrefix t p
+  (es, es.foldl (fun t e => replace e.1 v t) t)
+
 /-! specification: a strictly ascending association list -/
 def specPut (k v : Bytes) : List (Bytes × Bytes) → List (Bytes × Bytes)
   | [] => [(k, v)]
@@ -115,6 +130,30 @@ def run (ops : List (Bytes × Bytes × Nat)) : Tree :=
 
 def specRun (ops : List (Bytes × Bytes × Nat)) : List (Bytes × Bytes) :=
   ops.foldl (fun l o => specPut o.1 o.2.1 l) []
+
+/-- all operations the correspondence drives -/
+inductive Op where
+  | put (k v : Bytes) (rank : Nat)
+  | reput (k v : Bytes)
+  | ascPut (p v : Bytes)
+
+def step (t : Tree) : Op → Tree
+  | .put k v rank => (put k v rank t).2
+  | .reput k v => (reput k v t).2
+  | .ascPut p v => (ascendPut p v t).2
+
+def specStep (l : List (Bytes × Bytes)) : Op → List (Bytes × Bytes)
+  | .put k v _ => specPut k v l
+  | .reput k v => if (specGet k l).isSome then specPut k v l else l
+  | .ascPut p v => l.map (fun e => if Bytes.hasPrefix e.1 p then (e.1, v) else e)
+
+def runOps (ops : List Op) : Tree := ops.foldl step nil
+def specRunOps (ops : List Op) : List (Bytes × Bytes) := ops.foldl specStep []
+
+/-- exact shape with ranks (compared with the real tree's dump now that the harness drives the ranks) -/
+def showTree : Tree → String
+  | nil => "."
+  | node l k v rk r => "(" ++ toHex k ++ ":" ++ toString rk ++ "," ++ showTree l ++ "," ++ showTree r ++ ")"
 
 /-! shape checks evaluated by the driver on the model tree (and by the harness on the real tree) -/
 def keysAscending : List (Bytes × Bytes) → Bool
